@@ -17,7 +17,8 @@
                  | "both" (&total together with &less-than: documented as an error)
            fail  "none" | "key" (the &key callback throws in its at-th call)
                  | "lt" (the &less-than callback throws in its at-th call)
-                 | "lton" (the &less-than callback throws whenever an argument has rank r = at)
+                 | "lton" (the &less-than callback throws whenever an argument is a key of an
+                 ordered kind with rank r = at)
      kr    the internal order of types used by &total: kr[k1][k2] \in {-1, 0, 1}.  The reference
            leaves it unspecified but promises consistency, so it is DATA measured on the real code
            with `compare &total` (ConsistentKinds is part of the verdict).
@@ -120,8 +121,13 @@ Sort(in, lt(_, _)) == SortFrom(in, <<>>, lt, 1)
 
 (* ------------------------------------------------ failure clause *)
 HasKind2(in) == \E i, j \in 1..Len(in) : in[i].key.kind # in[j].key.kind
-Isolated(in, o, kr) == \E i \in 1..Len(in) : \A j \in 1..Len(in) : j # i => Unc(o, kr, in[i], in[j])
-AnyUnc(in, o, kr) == \E i, j \in 1..Len(in) : i # j /\ Unc(o, kr, in[i], in[j])
+\* cheap sufficient condition for "no uncomparable pair" (linear in the input): all keys of one
+\* ordered kind, or all keys lists whose elements are all of one ordered kind
+Flat(in) == \/ \E kd \in Ordered : \A i \in 1..Len(in) : in[i].key.kind = kd
+            \/ \E kd \in Ordered : \A i \in 1..Len(in) :
+                  in[i].key.kind = "list" /\ \A j \in 1..Len(in[i].key.es) : in[i].key.es[j].kind = kd
+Isolated(in, o, kr) == ~Flat(in) /\ \E i \in 1..Len(in) : \A j \in 1..Len(in) : j # i => Unc(o, kr, in[i], in[j])
+AnyUnc(in, o, kr) == ~Total(o) /\ ~Flat(in) /\ \E i, j \in 1..Len(in) : i # j /\ Unc(o, kr, in[i], in[j])
 UsesCmp(o) == o.cmp \in {"default", "total"}     \* builtin comparator; callbacks use `compare` too
 \* the builtin comparator (and the documented-equivalent callbacks, which call `compare`) must
 \* meet an uncomparable pair when the comparability graph is disconnected; two sufficient
@@ -132,7 +138,7 @@ MustThrow(in, o, kr) ==
   \/ o.cmp = "both"
   \/ o.fail = "key" /\ o.keyf /\ 1 <= o.at /\ o.at <= Len(in)
   \/ o.fail = "lt" /\ o.cmp \in {"lt", "ltdesc"} /\ 1 <= o.at /\ o.at <= Len(in) - 1
-  \/ o.fail = "lton" /\ o.cmp \in {"lt", "ltdesc"} /\ Len(in) >= 2 /\ \E i \in 1..Len(in) : in[i].key.r = o.at
+  \/ o.fail = "lton" /\ o.cmp \in {"lt", "ltdesc"} /\ Len(in) >= 2 /\ \E i \in 1..Len(in) : in[i].key.kind \in Ordered /\ in[i].key.r = o.at
   \/ ForcedUnc(in, o, kr)
 MayThrow(in, o, kr) ==
   \/ AnyUnc(in, o, kr)
